@@ -41,7 +41,11 @@
 //!    (thorough: every pair), then all subjects forward and in reverse, against their
 //!    fresh-thread observations; every entry point (decode, take_from, decode_if_type,
 //!    validate, validate_at, process, clone, re-encode, typed wrappers, serde) x every
-//!    single violation; the subject set under 7 TZ settings in child processes.
+//!    single violation; the subject set under 7 TZ settings in child processes;
+//!  * blocks.position: N resource blocks (AS, IPv4, IPv6; across 8, 16, 32, ... 256) x five block
+//!    shapes x every item of the stride of the queried block (gap, first, interior, last);
+//!  * identifier.spelling: sid, message digest and the EE certificate's key identifiers in every
+//!    length around the expected one (right prefix / right suffix / all wrong), all else satisfied.
 //!
 //! Reference model: the condition vector itself (accept <=> all true); for
 //! coverage a bitmask over the atoms.
@@ -243,15 +247,21 @@ fn mft_content(files: &[(Vec<u8>, u8)]) -> Vec<u8> {
 #[derive(Clone, Copy, Debug, PartialEq, Eq, PartialOrd, Ord)]
 enum DigestV { Ok, FlipFirst, FlipLast, Short31, Long33, Empty, OfOtherContent,
     /// the correct digest of ANOTHER valid content of the kind (entry 1 of its content menu); history subjects only
-    OfSibling }
+    OfSibling,
+    /// a value of this many octets derived from the correct digest (identifier.spelling only)
+    Spell(u16, Fill) }
 #[derive(Clone, Copy, Debug, PartialEq, Eq, PartialOrd, Ord)]
 enum SigV { Ok, OtherKey, OverImplicitTag, OverContent, FlipLastBit,
     /// the correct signature value without its last octet / without any octet (history predecessors only)
     Short, Empty }
 #[derive(Clone, Copy, Debug, PartialEq, Eq, PartialOrd, Ord)]
-enum SidV { Ok, OtherSki, FlipLastBit }
+enum SidV { Ok, OtherSki, FlipLastBit,
+    /// a value of this many octets derived from the EE certificate's subject key identifier (identifier.spelling only)
+    Spell(u16, Fill) }
 #[derive(Clone, Copy, Debug, PartialEq, Eq, PartialOrd, Ord)]
-enum CtV { Ok, AttrOther, EncapOther }
+enum CtV { Ok, AttrOther, EncapOther,
+    /// the object's content type with arcs dropped / appended (see `ct_spell`), in the attribute resp. in encapContentInfo (identifier.spelling only)
+    AttrSpell(i8), EncapSpell(i8) }
 #[derive(Clone, Copy, Debug, PartialEq, Eq, PartialOrd, Ord)]
 enum CardV { Ok, DupSame(usize, usize), DupOther(usize, usize), Missing(usize) }
 
@@ -337,8 +347,9 @@ fn plan_attrs(p: &Plan) -> Vec<Vec<u8>> {
         DigestV::Empty => Vec::new(),
         DigestV::OfOtherContent => { let mut c = p.content.clone(); c.push(0); sha256(&c) }
         DigestV::OfSibling => sha256(&content_menu(p.kind)[1].covered),
+        DigestV::Spell(l, f) => spell_id(&good, l as usize, f),
     };
-    let ct_attr_oid = if p.ct == CtV::AttrOther { p.kind.other_ct() } else { p.ect.clone() };
+    let ct_attr_oid = match p.ct { CtV::AttrOther => p.kind.other_ct(), CtV::AttrSpell(n) => ct_spell(&p.ect, n), _ => p.ect.clone() };
     let base = base_attrs(&ct_attr_oid, &dg, p.st_gen, p.st_secs);
     // the "other value" copies used for DupOther
     let alt = base_attrs(&[1, 2, 3, 4], &sha256(b"other"), p.st_gen, T0 - 120);
@@ -369,8 +380,9 @@ fn assemble(fx: &Fx, p: &Plan, cert: &[u8]) -> Vec<u8> {
         SidV::Ok => fx.s.key(K_EE).ski.to_vec(),
         SidV::OtherSki => fx.s.key(K_OTHER).ski.to_vec(),
         SidV::FlipLastBit => { let mut k = fx.s.key(K_EE).ski.to_vec(); k[19] ^= 1; k }
+        SidV::Spell(l, f) => spell_id(&fx.s.key(K_EE).ski, l as usize, f),
     };
-    let ect = if p.ct == CtV::EncapOther { p.kind.other_ct() } else { p.ect.clone() };
+    let ect = match p.ct { CtV::EncapOther => p.kind.other_ct(), CtV::EncapSpell(n) => ct_spell(&p.ect, n), _ => p.ect.clone() };
     der::signed_data(&SignedDataParts {
         version: 3,
         digest_alg_set: der::set_unsorted(&[der::alg_sha256(p.digest_null & 1 != 0)]),
@@ -853,6 +865,10 @@ fn main() {
 
     //--- (4f) the scale dimension: number of blocks / prefixes / providers ------------------------------------------------
     scale_spaces(&ctx, &fx, thorough);
+    blocks_position(&ctx, &fx, thorough);
+
+    //--- (4f') every compared identifier in every length around the expected one ------------------------------------------
+    identifier_spelling(&ctx, &fx, thorough);
 
     //--- (4d) siblings of the checked entry points: wall-clock variants, builder helpers, digest / key helpers -------
     api_siblings(&ctx, &fx, &perms);
@@ -2589,4 +2605,338 @@ fn routes_equivalence(ctx: &Ctx, fx: &Fx, ees: &BTreeMap<(Kind, EeV), Vec<u8>>, 
     sp.set("routes", serde_json::json!(routes_seen.into_inner().unwrap()));
     sp.sample_str(|| "route=`Mode::decode(SignedObject::take_from) + validate_at` kind=generic violated=[sid:FlipLastBit] -> rejected, as through every other route".to_string());
     sp.done(true, &format!("4 kinds x (1 + {} single violations [+ coverage]) x 2 orders x 2 modes x 7-10 routes", singles.len()));
+}
+
+//------------ spellings of an octet-string identifier ------------------------------------------------------------------------
+// Every identifier the acceptance predicate compares for equality (signer identifier vs subject key identifier, the
+// message-digest value vs SHA-256 of the content, the key identifiers of the EE certificate) has ONE expected length. A
+// value of another length is not equal, whatever its first or last octets are.
+
+/// How a value of another length is derived from the correct one.
+#[derive(Clone, Copy, Debug, PartialEq, Eq, PartialOrd, Ord)]
+enum Fill {
+    /// the correct octets first (as many as fit), then 0x00 / 0xff / the correct octets over again
+    Prefix00, PrefixFF, PrefixCycle,
+    /// the correct octets last (as many as fit), 0x00 / the correct octets over again before them
+    Suffix00, SuffixCycle,
+    /// no octet equals the correct octet at the same distance from either end
+    Wrong,
+}
+
+const FILLS: [Fill; 6] = [Fill::Prefix00, Fill::PrefixFF, Fill::PrefixCycle, Fill::Suffix00, Fill::SuffixCycle, Fill::Wrong];
+
+fn spell_id(good: &[u8], len: usize, fill: Fill) -> Vec<u8> {
+    let e = good.len();
+    (0..len).map(|i| {
+        let from_end = len - 1 - i;
+        match fill {
+            Fill::Prefix00 => if i < e { good[i] } else { 0 },
+            Fill::PrefixFF => if i < e { good[i] } else { 0xff },
+            Fill::PrefixCycle => good[i % e],
+            Fill::Suffix00 => if from_end < e { good[e - 1 - from_end] } else { 0 },
+            Fill::SuffixCycle => good[e - 1 - from_end % e],
+            // differs from the correct value counted from the front and from the back (x ^ 0xff ^ ... cannot equal both neighbours: use a value derived from both)
+            Fill::Wrong => { let (a, b) = (good[i % e], good[e - 1 - from_end % e]); let mut x = !a; while x == a || x == b { x = x.wrapping_add(1) } x }
+        }
+    }).collect()
+}
+
+/// The spellings of an identifier of `e` octets: (length, fill), one per distinct octet string, the correct value excluded.
+fn id_spellings(good: &[u8], thorough: bool) -> Vec<(u16, Fill)> {
+    let e = good.len();
+    let mut lens: Vec<usize> = (0..=2 * e + 1).collect();
+    lens.extend([3 * e, 127, 128, 255, 256]);
+    if thorough { lens.extend(2 * e + 2..=4 * e + 1); lens.extend([1000, 65535, 65536]) }
+    lens.sort(); lens.dedup();
+    let mut seen: BTreeSet<Vec<u8>> = BTreeSet::new();
+    seen.insert(good.to_vec());
+    let mut out = Vec::new();
+    for l in lens { for f in FILLS { if seen.insert(spell_id(good, l, f)) { out.push((l as u16, f)) } } }
+    out
+}
+
+fn spelling_name(e: usize, l: u16, f: Fill) -> String {
+    let l = l as usize;
+    let how = match (f, l < e) {
+        (Fill::Prefix00, true) | (Fill::PrefixFF, true) | (Fill::PrefixCycle, true) => "the first octets of the correct value",
+        (Fill::Suffix00, true) | (Fill::SuffixCycle, true) => "the last octets of the correct value",
+        (Fill::Prefix00, false) => "the correct value followed by 00 octets",
+        (Fill::PrefixFF, false) => "the correct value followed by ff octets",
+        (Fill::PrefixCycle, false) => "the correct value followed by its own first octets",
+        (Fill::Suffix00, false) => "00 octets followed by the correct value",
+        (Fill::SuffixCycle, false) => "the correct value's last octets followed by the correct value",
+        (Fill::Wrong, _) => "no octet correct",
+    };
+    // written as E+d / E-d so that the sorted list of witnesses starts with the nearest lengths
+    if l >= e { format!("{e}+{} octets ({how})", l - e) } else { format!("{e}-{} octets ({how})", e - l) }
+}
+
+/// An object identifier that has the given one as a proper prefix, or is a proper prefix of it:
+/// n < 0: the last |n| arcs dropped; n in 1..=3: n arcs 0 appended; 4: arc 1 appended; 5: arc 300 (two octets) appended.
+fn ct_spell(ect: &[u64], n: i8) -> Vec<u64> {
+    let mut v = ect.to_vec();
+    match n { n if n < 0 => v.truncate(ect.len() - (-n) as usize), 1..=3 => v.extend(std::iter::repeat(0).take(n as usize)), 4 => v.push(1), _ => v.push(300) }
+    v
+}
+const CT_SPELLS: [i8; 7] = [-2, -1, 1, 2, 3, 4, 5];
+
+/// The EE certificate of `kind` with the keyIdentifier of its subject / authority key identifier extension replaced
+/// (None = as the library writes it); assembled and signed by the independent encoder.
+fn ee_with_key_ids(fx: &Fx, kind: Kind, ski: Option<&[u8]>, aki: Option<&[u8]>, serial: u128) -> Vec<u8> {
+    use rpki_verif::engine::certref;
+    let mut sp = Spec::issued(pki::Kind::Ee, K_EE, K_CA, fx.s.ski(K_CA), default_res(kind), Overclaim::Refuse);
+    sp.validity = wide_validity();
+    sp.serial = serial;
+    let tbs = pki::build_tbs(&fx.s, &sp, None);
+    let tbs_der = bcder::Captured::from_values(bcder::Mode::Der, tbs.encode_ref()).as_slice().to_vec();
+    let tbs_der = certref::map_extensions(&tbs_der, &mut |oid, whole| {
+        let value = if oid == certref::OID_SKI { ski.map(|v| der::octets(v)) }
+            else if oid == certref::OID_AKI { aki.map(|v| der::seq(&[der::ctx(0, false, v)])) }
+            else { None };
+        match value {
+            None => vec![whole.to_vec()],
+            Some(v) => {
+                // everything but the extension value is kept as the library wrote it (OID, criticality)
+                let n = der::parse_one(whole, false).expect("extension parses");
+                let mut items: Vec<Vec<u8>> = n.children[..n.children.len() - 1].iter().map(|c| c.whole(whole).to_vec()).collect();
+                items.push(der::octets(&v));
+                vec![der::seq(&items)]
+            }
+        }
+    });
+    pki::sign_tbs(&fx.s, K_CA, &tbs_der)
+}
+
+/// The sid [0] of a DER object re-written as a constructed string cut at `cuts`.
+fn sid_in_segments(bytes: &[u8], cuts: &[usize]) -> Option<Vec<u8>> {
+    let root = der::parse_one(bytes, false)?;
+    let sd = root.children.get(1)?.children.first()?;
+    let path = vec![1, 0, sd.children.len() - 1, 0, 1];
+    Some(respell(bytes, &root, &mut Vec::new(), &path, &Spell::Segments(cuts.to_vec())))
+}
+
+fn identifier_spelling(ctx: &Ctx, fx: &Fx, thorough: bool) {
+    let sp = ctx.space("identifier.spelling",
+        "every octet-string identifier that the acceptance predicate compares for equality, written in every length around the expected one while every other condition holds: lengths 0..=2E+1, 3E, 127, 128, 255, 256 (thorough: 0..=4E+1, 1000, 65535, 65536) x {the correct octets first then 00 / ff / the correct octets again; the correct octets last after 00 / after the correct octets; no octet correct} (shorter values: the first / the last octets of the correct value / no octet correct). Sites: (1) the signer identifier (E = 20), primitive and, for BER, constructed in one segment, cut after min(E, L-1) octets and cut after the first octet; (2) the message-digest attribute value (E = 32; the signature is made over the attributes as written); (3) the subjectKeyIdentifier extension of the EE certificate (E = 20), the sid being the correct 20 octets or the very same octets as the extension; (4) the keyIdentifier of the EE certificate's authorityKeyIdentifier (E = 20); (5) the content type, in the attribute resp. in encapContentInfo, with its last 1, 2 arcs dropped or 1, 2, 3 arcs 0, an arc 1, an arc 300 appended (one identifier a proper prefix of the other). x 4 kinds x strict / relaxed; the spellings of E-1, E+1 and 32 resp. 64 octets also through every public route (routes.equivalence). Oracle: rejected or refused at decode (the values differ); the same machinery with the correct value written out: accepted; non-trivial = evaluations of a value that is not the correct one");
+    let ski = fx.s.key(K_EE).ski.to_vec();
+    let ca_ski = fx.s.key(K_CA).ski.to_vec();
+    let key_sp = id_spellings(&ski, thorough);
+    let aki_sp = id_spellings(&ca_ski, thorough);
+    let t = Tally::new();
+    let nt = Mutex::new(0u64);
+    let by_site: Mutex<BTreeMap<String, u64>> = Mutex::new(BTreeMap::new());
+    let ees = ee_table(fx);
+    // one evaluation: `want` accepted?
+    let judge = |site: &str, kind: Kind, bytes: &[u8], strict: bool, want: bool, wit: &dyn Fn() -> String| {
+        let entry = match kind { Kind::Mft | Kind::Gen => Entry::At, _ => Entry::Process(true) };
+        let (v, _) = run(fx, kind, bytes, &fx.ca, strict, entry);
+        sp.eval(); t.add(v.class());
+        if !want { *nt.lock().unwrap() += 1; *by_site.lock().unwrap().entry(format!("{site}: {}", v.class())).or_insert(0) += 1 }
+        expect(ctx, "C02.identifier.control.accept", &format!("C02.identifier.{site}.reject"), want, &v, || format!("{} kind={} strict={strict}", wit(), kind.name()));
+    };
+    // (1) the signer identifier; form 0 = primitive, 1 = constructed in one segment, 2 = cut after min(E, L-1), 3 = cut after the first octet
+    let form_name = ["primitive", "constructed, one segment", "constructed, cut after min(20, L-1) octets", "constructed, cut after the first octet"];
+    let cuts_of = |form: usize, l: usize| -> Option<Vec<usize>> { match form { 1 => Some(vec![]), 2 if l >= 2 => Some(vec![20.min(l - 1)]), 3 if l >= 3 => Some(vec![1]), _ => None } };
+    let mut jobs: Vec<(Kind, Option<(u16, Fill)>)> = Vec::new();
+    for k in KINDS { jobs.push((k, None)); for &s in &key_sp { jobs.push((k, Some(s))) } }
+    jobs.par_iter().for_each(|&(k, s)| {
+        let mut p = Plan::base(k);
+        if let Some((l, f)) = s { p.sid = SidV::Spell(l, f) }
+        let l = s.map(|(l, _)| l as usize).unwrap_or(20);
+        let der_bytes = assemble(fx, &p, &ees[&(k, EeV::Ok)]);
+        for form in 0..4 {
+            let bytes = if form == 0 { der_bytes.clone() } else { match cuts_of(form, l).and_then(|c| sid_in_segments(&der_bytes, &c)) { Some(b) => b, None => continue } };
+            for strict in [true, false] {
+                // the constructed forms of the correct value are BER: admitted by the relaxed decoder only (ber.respelling); here they are the control of the relaxed mode
+                if s.is_none() && form != 0 && strict { continue }
+                judge("sid", k, &bytes, strict, s.is_none(), &|| format!("sid [0] {}: {}; everything else satisfied", form_name[form],
+                    match s { None => "the correct 20 octets".to_string(), Some((l, f)) => spelling_name(20, l, f) }));
+            }
+        }
+    });
+    // (2) the message-digest value
+    let mut jobs: Vec<(Kind, Option<(u16, Fill)>)> = Vec::new();
+    for k in KINDS {
+        let good = sha256(&default_content(k));
+        jobs.push((k, None));
+        for s in id_spellings(&good, thorough) { jobs.push((k, Some(s))) }
+    }
+    jobs.par_iter().for_each(|&(k, s)| {
+        let mut p = Plan::base(k);
+        if let Some((l, f)) = s { p.digest = DigestV::Spell(l, f) }
+        let bytes = assemble(fx, &p, &ees[&(k, EeV::Ok)]);
+        for strict in [true, false] {
+            judge("message_digest", k, &bytes, strict, s.is_none(), &|| format!("message-digest attribute value: {}; signed as written, everything else satisfied",
+                match s { None => "the correct 32 octets".to_string(), Some((l, f)) => spelling_name(32, l, f) }));
+        }
+    });
+    // (2b) the two content-type object identifiers, one a proper prefix of the other
+    let mut jobs: Vec<(Kind, bool, i8)> = Vec::new();
+    for k in KINDS { for attr in [true, false] { for n in CT_SPELLS { jobs.push((k, attr, n)) } } }
+    jobs.par_iter().for_each(|&(k, attr, n)| {
+        let mut p = Plan::base(k);
+        p.ct = if attr { CtV::AttrSpell(n) } else { CtV::EncapSpell(n) };
+        let bytes = assemble(fx, &p, &ees[&(k, EeV::Ok)]);
+        for strict in [true, false] {
+            judge("content_type", k, &bytes, strict, false, &|| format!("content type {}: the object's content type {}; the other one as it should be, signed as written, everything else satisfied",
+                if attr { "in the content-type attribute" } else { "in encapContentInfo" },
+                match n { n if n < 0 => format!("without its last {} arc(s)", -n), 1..=3 => format!("with {n} more arc(s) 0"), 4 => "with one more arc 1".to_string(), _ => "with one more arc 300".to_string() }));
+        }
+    });
+    // (3) + (4) the key identifiers of the EE certificate
+    let mut jobs: Vec<(Kind, u8, Option<(u16, Fill)>)> = Vec::new();
+    for k in KINDS {
+        for site in [3u8, 4] { jobs.push((k, site, None)) }
+        for &s in &key_sp { jobs.push((k, 3, Some(s))) }
+        for &s in &aki_sp { jobs.push((k, 4, Some(s))) }
+    }
+    jobs.par_iter().for_each(|&(k, site, s)| {
+        let value: Vec<u8> = match (site, s) { (3, None) => ski.clone(), (_, None) => ca_ski.clone(), (3, Some((l, f))) => spell_id(&ski, l as usize, f), (_, Some((l, f))) => spell_id(&ca_ski, l as usize, f) };
+        let built = guard(|| if site == 3 { ee_with_key_ids(fx, k, Some(&value), None, 7700) } else { ee_with_key_ids(fx, k, None, Some(&value), 7701) });
+        let cert = match built { Ok(c) => c, Err(pn) => { fail("C02.no_panic", format!("building an EE certificate with a key identifier of {} octets", value.len()), pn); return } };
+        // the sid: the correct 20 octets; for the subject key identifier also the very octets of the extension
+        let sids: Vec<(SidV, &str)> = match (site, s) { (3, Some((l, f))) => vec![(SidV::Ok, "the correct 20 octets"), (SidV::Spell(l, f), "the same octets as the extension")], _ => vec![(SidV::Ok, "the correct 20 octets")] };
+        for (sid, sid_name) in sids {
+            let mut p = Plan::base(k); p.sid = sid;
+            let bytes = assemble(fx, &p, &cert);
+            for strict in [true, false] {
+                judge(if site == 3 { "ee_ski" } else { "ee_aki" }, k, &bytes, strict, s.is_none(), &|| format!("EE certificate {}: {}; sid = {sid_name}; certificate signed by the issuer as written, everything else satisfied",
+                    if site == 3 { "subjectKeyIdentifier" } else { "authorityKeyIdentifier.keyIdentifier" }, match s { None => "the correct 20 octets".to_string(), Some((l, f)) => spelling_name(20, l, f) }));
+            }
+        }
+    });
+    // (5) the neighbouring lengths through every public route
+    let mut jobs: Vec<(Kind, u8, u16, Fill, bool)> = Vec::new();
+    for k in KINDS { for site in [1u8, 2, 3] { for f in FILLS { for strict in [true, false] {
+        let e: u16 = if site == 2 { 32 } else { 20 };
+        for l in [e - 1, e + 1, if site == 2 { 64 } else { 32 }] { jobs.push((k, site, l, f, strict)) }
+    }}}}
+    let routes_seen: Mutex<BTreeSet<&'static str>> = Mutex::new(BTreeSet::new());
+    jobs.par_iter().for_each(|&(k, site, l, f, strict)| {
+        let mut p = Plan::base(k);
+        let cert: Vec<u8> = match site {
+            1 => { p.sid = SidV::Spell(l, f); ees[&(k, EeV::Ok)].clone() }
+            2 => { p.digest = DigestV::Spell(l, f); ees[&(k, EeV::Ok)].clone() }
+            _ => match guard(|| ee_with_key_ids(fx, k, Some(&spell_id(&ski, l as usize, f)), None, 7702)) { Ok(c) => c, Err(pn) => { fail("C02.no_panic", format!("building an EE certificate with a key identifier of {l} octets"), pn); return } },
+        };
+        let bytes = assemble(fx, &p, &cert);
+        let e = if site == 2 { 32 } else { 20 };
+        for (route, v) in route_verdicts(fx, k, &bytes, strict) {
+            let Some(v) = v else { continue };
+            sp.eval(); t.add(v.class()); *nt.lock().unwrap() += 1;
+            routes_seen.lock().unwrap().insert(route);
+            expect(ctx, "-", "C02.identifier.routes.reject", false, &v, || format!("{}: {}; everything else satisfied; route=`{route}` kind={} strict={strict}",
+                ["sid [0]", "message-digest attribute value", "EE certificate subjectKeyIdentifier"][site as usize - 1], spelling_name(e, l, f), k.name()));
+        }
+    });
+    t.flush(&sp);
+    sp.nontrivial(*nt.lock().unwrap());
+    sp.set("spellings_of_a_20_octet_identifier", serde_json::json!(key_sp.len()));
+    sp.set("rejections_per_site", serde_json::json!(*by_site.lock().unwrap()));
+    sp.set("routes", serde_json::json!(routes_seen.into_inner().unwrap()));
+    sp.sample_str(|| format!("kind=roa sid [0] primitive: {} = {} -> refused at decode", spelling_name(20, 21, Fill::Prefix00), hex(&spell_id(&ski, 21, Fill::Prefix00))));
+    sp.sample_str(|| format!("kind=generic message-digest attribute value: {} -> rejected", spelling_name(32, 33, Fill::Suffix00)));
+    sp.done(true, &format!("{} spellings of a 20-octet identifier x {{sid in 4 forms, EE subjectKeyIdentifier x 2 sids, EE authorityKeyIdentifier}} + {} spellings of the digest, x 4 kinds x 2 modes; 3 lengths x 6 fills x 3 sites x 4 kinds x 2 modes x 7-10 routes",
+        key_sp.len(), id_spellings(&sha256(&default_content(Kind::Gen)), thorough).len()));
+}
+
+//------------ number of resource blocks x position of the queried item ------------------------------------------------------
+
+/// (name, [offsets (first, last) within a stride of 16 of block j, by j % 4])
+const BLOCK_SHAPES: [(&str, [(u128, u128); 4]); 5] = [
+    ("single", [(5, 5); 4]),
+    ("pair", [(6, 7); 4]),
+    ("range", [(3, 9); 4]),
+    ("wide", [(1, 14); 4]),
+    ("mixed", [(5, 5), (3, 9), (6, 7), (1, 14)]),
+];
+
+fn blocks_position(ctx: &Ctx, fx: &Fx, thorough: bool) {
+    let sp = ctx.space("blocks.position",
+        "the number of separate resource blocks of the EE certificate crossed with WHERE the queried item sits: N blocks, N in 0..=40, 63..=65, 127..=129, 255..=257 (thorough also 511..=513, 1023..=1025); block j lies in the j-th stride of 16 items (AS numbers from AS196608, IPv4 addresses from 10.0.0.0, IPv6 addresses from 2001:db8::) and has one of five shapes: a single item (offset 5), an aligned pair (6-7), an unaligned range (3-9), a wide range (1-14), or these four in turn (j mod 4). Queried for stride j: EVERY one of its 16 items (so: the gap before, the first, second, interior, last but one, last item of the block, the gap after) - as ASPA customer AS resp. as a one-prefix ROA of a host address; for IP also every aligned prefix of 2, 4, 8 and 16 addresses inside the stride. Strides queried: every j < N and the stride after the last block for N <= 16 (thorough: N <= 129), else j in {0, 1, N/4, N/2-1, N/2, N/2+1, 3N/4, N-2, N-1, N} (thorough: and every 16th j). Issuer: the CA holding everything (all shapes), and a CA holding exactly the same N blocks (shapes range and mixed), overclaim refuse. Oracle: accepted <=> one block contains every queried item; non-trivial = all");
+    let mut counts = scale_counts(40, &[64, 128, 256]);
+    if thorough { counts.extend(scale_counts(0, &[512, 1024])); counts.sort(); counts.dedup() }
+    let strides_of = |n: usize| -> Vec<usize> {
+        let mut v: Vec<usize> = if n <= if thorough { 129 } else { 16 } { (0..=n).collect() } else { vec![0, 1, n / 4, n / 2 - 1, n / 2, n / 2 + 1, 3 * n / 4, n - 2, n - 1, n] };
+        if thorough && n > 129 { v.extend((0..n).step_by(16)) }
+        v.sort(); v.dedup(); v
+    };
+    let needed: Vec<usize> = { let mut s: BTreeSet<usize> = BTreeSet::new(); for &n in &counts { s.extend(strides_of(n)) } s.into_iter().collect() };
+    let ta = pki::valid_ta(&fx.s, K_TA, Res::all());
+    let t = Tally::new();
+    // family: 0 = AS (ASPA), 1 = IPv4 (ROA), 2 = IPv6 (ROA)
+    for fam in 0..3usize {
+        let (kind, w) = match fam { 0 => (Kind::Aspa, 32u32), 1 => (Kind::Roa, 32), _ => (Kind::Roa, 128) };
+        let base: u128 = match fam { 0 => 196_608, 1 => 0x0a00_0000, _ => 0x2001_0db8u128 << 96 };
+        // queries inside a stride: (offset, number of items); the same for every stride and every shape
+        let mut queries: Vec<(u128, u128)> = (0..16).map(|o| (o, 1)).collect();
+        if fam != 0 { for size in [2u128, 4, 8, 16] { for o in (0..16).step_by(size as usize) { queries.push((o, size)) } } }
+        let nq = queries.len();
+        // contents signed once: they depend on neither N nor the shape
+        let keys: Vec<(usize, usize)> = needed.iter().flat_map(|&j| (0..nq).map(move |q| (j, q))).collect();
+        let signed: Vec<Signed> = keys.par_iter().map(|&(j, q)| {
+            let (o, size) = queries[q];
+            let first = base + 16 * j as u128 + o;
+            let content = match fam {
+                0 => der::aspa_content(Some(1), first, &[65000, 65001]),
+                _ => { let a = [der::roa_addr_from(first, (w - size.trailing_zeros()) as u8, w as u8, None)];
+                       if fam == 2 { der::roa_content(None, 64496, None, Some(&a)) } else { der::roa_content(None, 64496, Some(&a), None) } }
+            };
+            presign(fx, kind, content)
+        }).collect();
+        let index: BTreeMap<(usize, usize), usize> = keys.iter().enumerate().map(|(i, k)| (*k, i)).collect();
+        // (shape, issuer holds exactly the same blocks, N)
+        let mut jobs: Vec<(usize, bool, usize)> = Vec::new();
+        for (si, (sname, _)) in BLOCK_SHAPES.iter().enumerate() { for tight in [false, true] { for &n in &counts {
+            if tight && !matches!(*sname, "range" | "mixed") { continue }
+            jobs.push((si, tight, n));
+        }}}
+        jobs.par_iter().for_each(|&(si, tight, n)| {
+            let (sname, offs) = BLOCK_SHAPES[si];
+            let blocks: Vec<(u128, u128)> = (0..n).map(|j| { let (a, b) = offs[j % 4]; (base + 16 * j as u128 + a, base + 16 * j as u128 + b) }).collect();
+            let claim = if n == 0 { Claim::Missing } else { Claim::Blocks(blocks.clone()) };
+            // ASPA: no IP resources at all; ROA: a block of the other family keeps the certificates well-formed when N = 0
+            let res = match fam {
+                0 => Res { v4: Claim::Missing, v6: Claim::Missing, asn: claim },
+                1 => Res { v4: claim, v6: Claim::Blocks(vec![(0x2001_0db8u128 << 96, (0x2001_0db8u128 << 96) + 0xffff)]), asn: Claim::Missing },
+                _ => Res { v4: Claim::Blocks(vec![(0x0a00_0000, 0x0a00_00ff)]), v6: claim, asn: Claim::Missing },
+            };
+            let built = guard(|| {
+                let issuer = if tight { let mut r = res.clone(); if fam == 0 && n == 0 { r.asn = Claim::Blocks(vec![(1, 1)]) } pki::valid_ca(&fx.s, &ta, K_TA, K_CA, r) } else { fx.ca.clone() };
+                (ee_der(fx, res.clone(), EeV::Ok, 9000 + n as u128), issuer)
+            });
+            let (cert, issuer) = match built { Ok(x) => x, Err(pn) => { fail("C02.no_panic", format!("building certificates with {n} blocks (shape {sname})"), pn); return } };
+            let mut local: BTreeMap<&'static str, u64> = BTreeMap::new();
+            let mut evals = 0u64;
+            for j in strides_of(n) { for (q, &(o, size)) in queries.iter().enumerate() {
+                let first = base + 16 * j as u128 + o;
+                let last = first + size - 1;
+                let want = blocks.iter().any(|&(lo, hi)| lo <= first && last <= hi);
+                let bytes = wrap(fx, kind, &signed[index[&(j, q)]], &cert);
+                let (v, _) = run(fx, kind, &bytes, &issuer, true, Entry::Process(true));
+                evals += 1; *local.entry(v.class()).or_insert(0) += 1;
+                let (oa, or) = if fam == 0 { ("C02.aspa.accept", "C02.aspa.reject") } else { ("C02.roa.covered.accept", "C02.roa.uncovered.reject") };
+                expect(ctx, oa, or, want, &v, || {
+                    let item = match fam { 0 => format!("aspa customer=AS{first}"), 1 => format!("roa prefix={}", render_pfx(&Pfx { bits: first, len: (w - size.trailing_zeros()) as u8, max: None }, false)),
+                        _ => format!("roa prefix={}", render_pfx(&Pfx { bits: first, len: (w - size.trailing_zeros()) as u8, max: None }, true)) };
+                    let place = if j >= n { "in the stride after the last block".to_string() } else {
+                        let (a, b) = offs[j % 4];
+                        let pos = if size > 1 { format!("items {o}..={} of the stride", o + size - 1) } else if o < a { "in the gap before".into() } else if o > b { "in the gap after".into() } else if o == a && o == b { "the only item".into() }
+                            else if o == a { "the FIRST item".into() } else if o == b { "the LAST item".into() } else { "an interior item".into() };
+                        format!("{pos} of block {j} = offsets {a}..={b} of stride {j}")
+                    };
+                    // the block count first and right-aligned: the sorted list of witnesses starts with the smallest count that fails
+                    format!("ee certificate holds {n:>4} blocks of shape `{sname}`, block i at {} + 16 i; issuer holds {}; {item} ({place})", match fam { 0 => "AS196608", 1 => "10.0.0.0", _ => "2001:db8::" }, if tight { "exactly the same blocks" } else { "everything" })
+                });
+            }}
+            sp.evals(evals); sp.nontrivial(evals);
+            let mut g = t.oc.lock().unwrap(); for (k, c) in local { *g.entry(k).or_insert(0) += c }
+        });
+    }
+    sp.merge_outcomes(&t.oc.lock().unwrap());
+    sp.set("block_counts", serde_json::json!(counts));
+    sp.set("strides_signed", serde_json::json!(needed.len()));
+    sp.sample_str(|| "ee certificate holds    9 blocks of shape `range`, block i at AS196608 + 16 i; issuer holds everything; aspa customer=AS196739 (the FIRST item of block 8 = offsets 3..=9 of stride 8) -> accepted".to_string());
+    sp.sample_str(|| "ee certificate holds   12 blocks of shape `range`, block i at 10.0.0.0 + 16 i; issuer holds exactly the same blocks; roa prefix=v4:0a000088/29 (items 8..=15 of the stride of block 8 = offsets 3..=9 of stride 8) -> rejected".to_string());
+    sp.done(true, &format!("{} block counts x (5 shapes under the full CA + 2 shapes under a CA with the same blocks) x the queried strides x (16 AS numbers; 16 host addresses + 15 aligned prefixes in each IP family)", counts.len()));
 }
